@@ -2,7 +2,7 @@
 {
  'package': 'brush-core',
  'host': 'brush-core/src/expansion.rs',
- 'stubs': ['offset.eval(..).await / length.eval(..).await -> oracle returning arbitrary i64',
+ 'stubs': ['std::fmt::format -> empty string (the text of the error message is not the subject)', 'offset.eval(..).await / length.eval(..).await -> oracle returning arbitrary i64',
            'the expanded parameter -> probe with the same member names (polymorphic_len(), from_array, polymorphic_subslice(start, end)); the probe\'s polymorphic_subslice checks the callee\'s precondition 0 <= start <= end <= len and records the pair'],
  'assumptions': ['value length (characters or array elements) any usize <= 2^32; offset and length any i64'],
  'out_of_claim': ['operator recognition by the word grammar (`%%` before `%`, `:-` before `:offset`)', 'slicing of string contents once (start, end) are right (polymorphic_subslice on strings: allocation with symbolic size)',
@@ -66,7 +66,7 @@ fn substring_harness(from_array: bool) {
     let r = k_substring(ExpProbe { n, from_array }, if has_len { Some(()) } else { None }, &mut o);
     let exp = reference(n as i64, from_array, o.off, if has_len { Some(o.len) } else { None });
     kani::cover!(has_len && o.len < 0 && o.off == 2 && n == 3, "negative_length_before_start");      // D1 shape: x=abc ${x:2:-5}
-    kani::cover!(has_len && o.len == -1 && o.off == 2 && n == 6 && r.is_ok(), "negative_length_is_end_position");  // D17 shape
+    kani::cover!(has_len && o.len == -1 && o.off == 2 && n == 6 && (from_array || r.is_ok()), "negative_length_is_end_position");  // D17 shape
     kani::cover!(o.off == i64::MIN, "offset_min");
     kani::cover!(has_len && o.len == i64::MAX && o.off > 0, "length_max");
     assert!(o.offset_evals == 1, "C06.substring.offset_evaluated_once");
@@ -81,9 +81,11 @@ fn substring_harness(from_array: bool) {
 //@proof {'props': ['C06', 'C01'], 'tier': 'quick', 'timeout': 900, 'bounds': 'scalar value of length <= 2^32; offset, length any i64 (length optional)', 'render': 'substring', 'desc': '${v:o:l} index arithmetic on a string: no overflow, callee precondition 0<=start<=end<=len, (start,end) equal bash\'s rule, error exactly where bash reports "substring expression < 0" (D1, D17)'}
 #[kani::proof]
 #[kani::unwind(2)]
+#[kani::stub(std::fmt::format, crate::vk_prelude::stub_fmt_format)]
 fn vk_c06_substring_scalar() { substring_harness(false); }
 
 //@proof {'props': ['C06', 'C01'], 'tier': 'quick', 'timeout': 900, 'bounds': 'array / positional list of <= 2^32 elements; offset, length any i64', 'render': 'substring', 'desc': '${a[@]:o:l} / ${@:o:l} index arithmetic: as above; a negative length is an error for arrays'}
 #[kani::proof]
 #[kani::unwind(2)]
+#[kani::stub(std::fmt::format, crate::vk_prelude::stub_fmt_format)]
 fn vk_c06_substring_array() { substring_harness(true); }
